@@ -202,6 +202,7 @@ func VH_C11_compare() {
 // 0..3 columns, per-column DESC and collation.
 //verif:bounds key 0..2 columns x record 0..2 columns (thorough: 0..3); values NULL/int64/text of 1 byte (two-column keys in quick: NULL/int64; thorough: + float64); DESC per key column; collation binary or nocase
 //verif:shards 12
+//verif:prop C11,C20
 func VH_C11_search_equals() {
 	sh := verifShard(12)
 	nk, nr := sh/4, sh%4
